@@ -56,6 +56,18 @@ func buildPlan(id string, pinned map[string]string, tier string) *Plan {
 			"twisted-Edwards companions: not under contract", "numeric value of bCurveCoeff / bTwistCurveCoeff is not checked at the ring layer"}
 		p.Note = "Every branch of every Jacobian and extended-Jacobian addition, mixed addition, doubling, negation and conversion under contract returns a representative of the point prescribed by the chord-and-tangent law, for every representative of the inputs (all projective scalings), with the branch taken determined by the code's own zero/equality tests."
 		return p
+	case "C07":
+		p := &Plan{ID: id}
+		for _, pk := range marshalPkgs("/repo") {
+			p.Units = append(p.Units, Unit{Pkg: pk, Tags: "", Groups: []string{"marshal"}})
+		}
+		p.Trusted = []string{"ring layer: coordinate decoders (SetBytesCanonical: proved under C08) are opaque here, only their error result is used",
+			"IsInSubGroup is an assumed pure predicate (exactness of the subgroup test is number theory); IsOnCurve is used through its C02 contract",
+			"Sqrt returns a square root or nil (C01 contract of Sqrt is not yet proved: assumed at this layer)"}
+		p.NotCovered = []string{"G2 decoders, encoders (Bytes / RawBytes), round trip Bytes/SetBytes, streaming Encoder / Decoder (reflection, io.Reader chunking, parallel Y recovery): not under contract",
+			"secp256k1 (different decoder shape) and twisted-Edwards point decoding: not under contract (twistededwards.PointAffine.SetBytes has no rejection path at all: see DESIGN.md findings)"}
+		p.Note = "G1Affine.setBytes / unsafeSetCompressedBytes of every curve with the generated decoder: a nil error is returned only if the flag pattern is valid, the coordinates decoded canonically, infinity encodings are all-zero, an uncompressed point passed the subgroup test or (when disabled) the on-curve test, a compressed point has Y = +-sqrt(X^3+b) with the sign selected by the flag and passed the subgroup test when enabled; byte counts match; short buffers give errors (no panic: all slice bounds are obligations)."
+		return p
 	case "C15":
 		p := &Plan{ID: id}
 		p.Units = append(p.Units, Unit{Pkg: "./fiat-shamir", Tags: "", Groups: []string{"transcript"}})
